@@ -1165,146 +1165,213 @@ theorem parseHead_of_stages {T : Tab} {s : Str} {a : Bool × Str} {b : Option St
   unfold parseHead
   simp only [h3, h4]
 
+/-- class name followed by the rest of the text -/
+structure ClsTail (T : Tab) (C tail : Str) : Prop where
+  ne : C ≠ []
+  word : ∀ ch ∈ C, T.word ch = true
+  tail : tail = [] ∨ ∃ t, tail = '.' :: t
+
+def NsPart (T : Tab) (N : Option Str) : Prop := ∀ m, N = some m → nsOk m = true ∧ ∀ ch ∈ m, nsChar T ch = true
+
+theorem afterSlash_ns {T : Tab} (hT : TabOk T) {N : Option Str} {C tail : Str} (hN : NsPart T N) (p0 : Bool) :
+    splitNs T p0 (optStr N ++ ':' :: (C ++ tail)) = some (N, C ++ tail) := by
+  cases N with
+  | none => simpa [optStr] using splitNs_colon hT p0 _
+  | some m => simpa [optStr] using splitNs_some hT (hN m rfl).1 (hN m rfl).2 p0 _
+
+theorem clsTail_head {T : Tab} (hT : TabOk T) {C tail : Str} (hc : ClsTail T C tail) :
+    ∃ x xs, C = x :: xs ∧ x ≠ '/' ∧ x ≠ ':' ∧ x ≠ '.' := by
+  cases C with
+  | nil => exact absurd rfl hc.ne
+  | cons x xs => exact ⟨x, xs, rfl, word_ne hT (hc.word x (by simp))⟩
+
+/-- `//H/[N]:C…` -/
+theorem parseHead_formA {T : Tab} (hT : TabOk T) {H : Str} (hHne : H ≠ []) (hHall : ∀ ch ∈ H, authChar T ch = true)
+    {N : Option Str} {C tail : Str} (hN : NsPart T N) (hc : ClsTail T C tail) :
+    parseHead T ('/' :: '/' :: (H ++ '/' :: (optStr N ++ ':' :: (C ++ tail)))) =
+      some { host := some H, ns := N, rest := C ++ tail } := by
+  have wsl : T.word '/' = false := hT.not_word '/' (by simp)
+  have sc_sl : schemeChar T '/' = false := by simp [schemeChar, wsl]
+  have au_sl : authChar T '/' = false := by simp [authChar, wsl]
+  have as := afterSlash_ns hT (C := C) (tail := tail) hN false
+  generalize optStr N ++ ':' :: (C ++ tail) = R at as ⊢
+  have h1 : stripScheme T ('/' :: '/' :: (H ++ '/' :: R)) = (false, '/' :: '/' :: (H ++ '/' :: R)) :=
+    stripScheme_none (by intro r; simp [sc_sl])
+  have h2 : stripAuth T ('/' :: '/' :: (H ++ '/' :: R)) = (some H, '/' :: R) := by
+    simp only [stripAuth, takeWhile_stop hHall au_sl, dropWhile_stop hHall au_sl]
+  have h3 : stripSlash (!false && (some H).isNone) ('/' :: R) = some (R, false) := by simp [stripSlash]
+  exact (parseHead_of_stages h1 h2 h3 as).trans (by simp [orNone, hHne])
+
+/-- `/[N]:C…` -/
+theorem parseHead_formB {T : Tab} (hT : TabOk T) {N : Option Str} {C tail : Str} (hN : NsPart T N) (hc : ClsTail T C tail) :
+    parseHead T ('/' :: (optStr N ++ ':' :: (C ++ tail))) = some { host := none, ns := N, rest := C ++ tail } := by
+  have wsl : T.word '/' = false := hT.not_word '/' (by simp)
+  have sc_sl : schemeChar T '/' = false := by simp [schemeChar, wsl]
+  have na : ∀ r, ('/' :: (optStr N ++ ':' :: (C ++ tail))) ≠ '/' :: '/' :: r := by
+    intro r he
+    cases N with
+    | none => simp [optStr] at he
+    | some m =>
+      have := hN m rfl
+      cases hm : m with
+      | nil => rw [hm] at this; exact absurd rfl (nsOk_ne_nil this.1)
+      | cons y ys => rw [hm] at this; simp [optStr, hm] at he; exact nsOk_head this.1 he.1
+  have as := afterSlash_ns hT (C := C) (tail := tail) hN false
+  generalize optStr N ++ ':' :: (C ++ tail) = R at as na ⊢
+  have h1 : stripScheme T ('/' :: R) = (false, '/' :: R) := stripScheme_none (by intro r; simp [sc_sl])
+  have h2 : stripAuth T ('/' :: R) = (none, '/' :: R) := stripAuth_none na
+  have h3 : stripSlash (!false && (none : Option Str).isNone) ('/' :: R) = some (R, false) := by simp [stripSlash]
+  exact (parseHead_of_stages h1 h2 h3 as).trans (by simp)
+
+/-- `[N]:C…` at the very start of the text (historical with namespace; cimobject without host) -/
+theorem parseHead_formD {T : Tab} (hT : TabOk T) {N : Option Str} {C tail : Str} (hN : NsPart T N) (hc : ClsTail T C tail) :
+    parseHead T (optStr N ++ ':' :: (C ++ tail)) = some { host := none, ns := N, rest := C ++ tail } := by
+  have wco : T.word ':' = false := hT.not_word ':' (by simp)
+  have sc_co : schemeChar T ':' = false := by simp [schemeChar, wco]
+  obtain ⟨x, xs, rfl, hx1, hx2, hx3⟩ := clsTail_head hT hc
+  have as := afterSlash_ns hT (C := x :: xs) (tail := tail) hN true
+  -- first character of the text: a namespace character that is not '/', or ':'
+  obtain ⟨y, ys, hY, hy⟩ : ∃ y ys, optStr N ++ ':' :: ((x :: xs) ++ tail) = y :: ys ∧ y ≠ '/' := by
+    cases N with
+    | none => exact ⟨':', (x :: xs) ++ tail, by simp [optStr], by decide⟩
+    | some m =>
+      have := hN m rfl
+      cases hm : m with
+      | nil => rw [hm] at this; exact absurd rfl (nsOk_ne_nil this.1)
+      | cons y ys => rw [hm] at this; exact ⟨y, ys ++ ':' :: ((x :: xs) ++ tail), by simp [optStr], nsOk_head this.1⟩
+  have nosch : ∀ r, (optStr N ++ ':' :: ((x :: xs) ++ tail)).dropWhile (schemeChar T) ≠ ':' :: '/' :: r := by
+    intro r he
+    rw [List.dropWhile_append] at he
+    split at he
+    · simp [sc_co] at he; exact hx1 he.1
+    · rename_i hne
+      cases hd : (optStr N).dropWhile (schemeChar T) with
+      | nil => simp [hd] at hne
+      | cons z zs =>
+        rw [hd] at he
+        simp at he
+        have hz : z ∈ optStr N := List.dropWhile_subset _ (by rw [hd]; simp)
+        cases N with
+        | none => simp [optStr] at hz
+        | some m =>
+          have := (hN m rfl).2 z (by simpa [optStr] using hz)
+          rw [he.1] at this
+          simp [nsChar, wco] at this
+  generalize optStr N ++ ':' :: ((x :: xs) ++ tail) = S at as hY nosch ⊢
+  subst hY
+  have h1 : stripScheme T (y :: ys) = (false, y :: ys) := stripScheme_none nosch
+  have h2 : stripAuth T (y :: ys) = (none, y :: ys) := stripAuth_none (by intro r he; simp at he; exact hy he.1)
+  have h3 : stripSlash (!false && (none : Option Str).isNone) (y :: ys) = some (y :: ys, true) := by
+    simp only [stripSlash]
+    split
+    · rename_i r heq; simp at heq; exact absurd heq.1 hy
+    · rfl
+  exact (parseHead_of_stages h1 h2 h3 as).trans (by simp)
+
+/-- `C…` at the very start of the text (historical without host and namespace) -/
+theorem parseHead_formE {T : Tab} (hT : TabOk T) {C tail : Str} (hc : ClsTail T C tail) :
+    parseHead T (C ++ tail) = some { host := none, ns := none, rest := C ++ tail } := by
+  have wdo : T.word '.' = false := hT.not_word '.' (by simp)
+  have sc_do : schemeChar T '.' = false := by simp [schemeChar, wdo]
+  obtain ⟨x, xs, rfl, hx1, hx2, hx3⟩ := clsTail_head hT hc
+  have ht := hc.tail
+  have dk : ((x :: xs) ++ tail).dropWhile (schemeChar T) = tail := by
+    have hall : ∀ ch ∈ x :: xs, schemeChar T ch = true := fun ch hch => by simp [schemeChar, hc.word ch hch]
+    rcases ht with rfl | ⟨t, rfl⟩
+    · simpa using dropWhile_end hall
+    · exact dropWhile_stop hall sc_do t
+  have hss : stripSlash true ((x :: xs) ++ tail) = some ((x :: xs) ++ tail, true) := by
+    simp only [List.cons_append, stripSlash]
+    split
+    · rename_i r heq; simp at heq; exact absurd heq.1 hx1
+    · rfl
+  have h1 : stripScheme T ((x :: xs) ++ tail) = (false, (x :: xs) ++ tail) :=
+    stripScheme_none (by intro r; rw [dk]; rcases ht with rfl | ⟨t, rfl⟩ <;> simp)
+  have h2 : stripAuth T ((x :: xs) ++ tail) = (none, (x :: xs) ++ tail) :=
+    stripAuth_none (by intro r he; simp at he; exact hx1 he.1)
+  have h3 : stripSlash (!false && (none : Option Str).isNone) ((x :: xs) ++ tail) = some ((x :: xs) ++ tail, true) := by
+    simpa using hss
+  exact (parseHead_of_stages h1 h2 h3 (splitNs_start hT (by simp) hc.word ht)).trans (by simp)
+
+/-- like `HeadSafe` but for all four formats: in the `cimobject` format the host is not printed, so nothing is
+    required of it -/
+structure HeadOk (T : Tab) (fmt : Fmt) (h n : Option Str) (c : Str) : Prop where
+  host : fmt ≠ .cimobject → ∀ x, h = some x → caseOf T fmt x ≠ [] ∧ ∀ ch ∈ caseOf T fmt x, authChar T ch = true
+  ns : ∀ x, n = some x → nsOk (caseOf T fmt x) = true ∧ ∀ ch ∈ caseOf T fmt x, nsChar T ch = true
+  cls : caseOf T fmt c ≠ [] ∧ ∀ ch ∈ caseOf T fmt c, T.word ch = true
+  hist : fmt = .historical → h.isSome = true → n.isSome = true
+
+theorem HeadSafe.toOk {T : Tab} {fmt : Fmt} {h n : Option Str} {c : Str} (hs : HeadSafe T fmt h n c) : HeadOk T fmt h n c :=
+  ⟨fun _ => hs.host, hs.ns, hs.cls, hs.hist⟩
+
+/-- the host `from_wbem_uri` finds in a printed URI: the `cimobject` format does not print it -/
+def parsedHost (T : Tab) (fmt : Fmt) (h : Option Str) : Option Str :=
+  if fmt = .cimobject then none else h.map (caseOf T fmt)
+
+/-- the printed head of a path is parsed back into its (cased) components — all four formats — whatever
+    follows the class name (`tail` = end of text for class paths, `.` + keybindings for instance paths) -/
+theorem parseHead_printed_all {T : Tab} (hT : TabOk T) {fmt : Fmt} {h n : Option Str} {c : Str}
+    (hs : HeadOk T fmt h n c) {tail : Str} (ht : tail = [] ∨ ∃ t, tail = '.' :: t) :
+    parseHead T (headStr T fmt h n c ++ tail) =
+      some { host := parsedHost T fmt h, ns := n.map (caseOf T fmt), rest := caseOf T fmt c ++ tail } := by
+  obtain ⟨hhost, hns, hcls, hhist⟩ := hs
+  have hc : ClsTail T (caseOf T fmt c) tail := ⟨hcls.1, hcls.2, ht⟩
+  have hN : NsPart T (n.map (caseOf T fmt)) := by
+    intro m hm
+    cases n with
+    | none => simp at hm
+    | some n0 => simp at hm; subst hm; exact hns n0 rfl
+  cases h with
+  | some hh =>
+    by_cases hcim : fmt = .cimobject
+    · -- cimobject with host: "/" [N] ":" C tail, the host is dropped
+      subst hcim
+      have e : headStr T .cimobject (some hh) n c ++ tail =
+          '/' :: (optStr (n.map (caseOf T .cimobject)) ++ ':' :: (caseOf T .cimobject c ++ tail)) := by
+        simp [headStr]
+      rw [e, parseHead_formB hT hN hc]; simp [parsedHost]
+    · obtain ⟨hHne, hHall⟩ := hhost hcim hh rfl
+      have hcolon : (n.isSome || decide (fmt ≠ Fmt.historical)) = true := by
+        have := fun e => hhist e rfl
+        cases fmt <;> simp_all
+      have e : headStr T fmt (some hh) n c ++ tail =
+          '/' :: '/' :: (caseOf T fmt hh ++ '/' :: (optStr (n.map (caseOf T fmt)) ++ ':' :: (caseOf T fmt c ++ tail))) := by
+        simp only [headStr, hcolon]
+        simp [hcim]
+      rw [e, parseHead_formA hT hHne hHall hN hc]; simp [parsedHost, hcim]
+  | none =>
+    have hp : parsedHost T fmt none = none := by simp [parsedHost]
+    rw [hp]
+    cases fmt with
+    | standard =>
+      have e : headStr T .standard none n c ++ tail =
+          '/' :: (optStr (n.map (caseOf T .standard)) ++ ':' :: (caseOf T .standard c ++ tail)) := by simp [headStr]
+      rw [e, parseHead_formB hT hN hc]
+    | canonical =>
+      have e : headStr T .canonical none n c ++ tail =
+          '/' :: (optStr (n.map (caseOf T .canonical)) ++ ':' :: (caseOf T .canonical c ++ tail)) := by simp [headStr]
+      rw [e, parseHead_formB hT hN hc]
+    | cimobject =>
+      have e : headStr T .cimobject none n c ++ tail =
+          optStr (n.map (caseOf T .cimobject)) ++ ':' :: (caseOf T .cimobject c ++ tail) := by simp [headStr]
+      rw [e, parseHead_formD hT hN hc]
+    | historical =>
+      cases n with
+      | none =>
+        have e : headStr T .historical none none c ++ tail = caseOf T .historical c ++ tail := by simp [headStr, optStr]
+        rw [e, parseHead_formE hT hc]; rfl
+      | some m =>
+        have e : headStr T .historical none (some m) c ++ tail =
+            optStr ((some m).map (caseOf T .historical)) ++ ':' :: (caseOf T .historical c ++ tail) := by simp [headStr]
+        rw [e, parseHead_formD hT hN hc]
+
 /-- the printed head of a safe path is parsed back into its (cased) components, whatever
     follows the class name (`tail` = end of text for class paths, `.` + keybindings for instance paths) -/
 theorem parseHead_printed {T : Tab} (hT : TabOk T) {fmt : Fmt} {h n : Option Str} {c : Str}
     (hs : HeadSafe T fmt h n c) {tail : Str} (ht : tail = [] ∨ ∃ t, tail = '.' :: t) :
     parseHead T (headStr T fmt h n c ++ tail) =
       some { host := h.map (caseOf T fmt), ns := n.map (caseOf T fmt), rest := caseOf T fmt c ++ tail } := by
-  obtain ⟨hfmt, hhost, hns, hcls, hhist⟩ := hs
-  have wsl : T.word '/' = false := hT.not_word '/' (by simp)
-  have wco : T.word ':' = false := hT.not_word ':' (by simp)
-  have wdo : T.word '.' = false := hT.not_word '.' (by simp)
-  have wmi : T.word '-' = false := hT.not_word '-' (by simp)
-  have sc_sl : schemeChar T '/' = false := by simp [schemeChar, wsl]
-  have sc_co : schemeChar T ':' = false := by simp [schemeChar, wco]
-  have sc_do : schemeChar T '.' = false := by simp [schemeChar, wdo]
-  have au_sl : authChar T '/' = false := by simp [authChar, wsl]
-  -- the class name followed by the tail
-  generalize hC : caseOf T fmt c = C at hcls ⊢
-  obtain ⟨x, xs, rfl⟩ : ∃ x xs, C = x :: xs := by
-    cases C with
-    | nil => exact absurd rfl hcls.1
-    | cons x xs => exact ⟨x, xs, rfl⟩
-  have hxw : T.word x = true := hcls.2 x (by simp)
-  have hxne := word_ne hT hxw
-  -- text after the authority part: [N] ':' C tail
-  have afterSlash : ∀ (p0 : Bool), (n.isSome = true ∨ True) →
-      splitNs T p0 (optStr (n.map (caseOf T fmt)) ++ ':' :: ((x :: xs) ++ tail)) =
-        some (n.map (caseOf T fmt), (x :: xs) ++ tail) := by
-    intro p0 _
-    cases n with
-    | none => simpa [optStr] using splitNs_colon hT p0 _
-    | some m => simpa [optStr] using splitNs_some hT (hns m rfl).1 (hns m rfl).2 p0 _
-  cases h with
-  | some hh =>
-    -- "//" H "/" [N] ":" C tail   (standard, canonical, and historical with a namespace)
-    obtain ⟨hHne, hHall⟩ := hhost hh rfl
-    have hn' : fmt = .historical → n.isSome = true := fun e => hhist e rfl
-    have hcolon : (n.isSome || decide (fmt ≠ Fmt.historical)) = true := by
-      cases fmt <;> simp_all
-    have e : headStr T fmt (some hh) n c ++ tail =
-        '/' :: '/' :: (caseOf T fmt hh ++ '/' :: (optStr (n.map (caseOf T fmt)) ++ ':' :: ((x :: xs) ++ tail))) := by
-      simp only [headStr, hC, hcolon]
-      simp [hfmt]
-    rw [e]
-    generalize hR : optStr (n.map (caseOf T fmt)) ++ ':' :: ((x :: xs) ++ tail) = R at afterSlash ⊢
-    have h1 : stripScheme T ('/' :: '/' :: (caseOf T fmt hh ++ '/' :: R)) =
-        (false, '/' :: '/' :: (caseOf T fmt hh ++ '/' :: R)) := stripScheme_none (by intro r; simp [sc_sl])
-    have h2 : stripAuth T ('/' :: '/' :: (caseOf T fmt hh ++ '/' :: R)) = (some (caseOf T fmt hh), '/' :: R) := by
-      simp only [stripAuth, takeWhile_stop hHall au_sl, dropWhile_stop hHall au_sl]
-    have h3 : stripSlash (!false && (some (caseOf T fmt hh)).isNone) ('/' :: R) = some (R, false) := by simp [stripSlash]
-    exact (parseHead_of_stages h1 h2 h3 (afterSlash false (Or.inr trivial))).trans (by simp [orNone, hHne])
-  | none =>
-    cases hf : decide (fmt = .historical) with
-    | false =>
-      -- "/" [N] ":" C tail
-      have hf' : fmt ≠ .historical := by simpa using hf
-      have e : headStr T fmt none n c ++ tail =
-          '/' :: (optStr (n.map (caseOf T fmt)) ++ ':' :: ((x :: xs) ++ tail)) := by
-        simp only [headStr, hC]
-        simp [hfmt, hf']
-      rw [e]
-      have na : ∀ r, ('/' :: (optStr (n.map (caseOf T fmt)) ++ ':' :: ((x :: xs) ++ tail))) ≠ '/' :: '/' :: r := by
-        intro r he
-        cases n with
-        | none => simp [optStr] at he
-        | some m =>
-          have := hns m rfl
-          cases hm : caseOf T fmt m with
-          | nil => rw [hm] at this; exact absurd rfl (nsOk_ne_nil this.1)
-          | cons y ys => rw [hm] at this; simp [optStr, hm] at he; exact nsOk_head this.1 he.1
-      generalize hR : optStr (n.map (caseOf T fmt)) ++ ':' :: ((x :: xs) ++ tail) = R at afterSlash na ⊢
-      have h1 : stripScheme T ('/' :: R) = (false, '/' :: R) := stripScheme_none (by intro r; simp [sc_sl])
-      have h2 : stripAuth T ('/' :: R) = (none, '/' :: R) := stripAuth_none na
-      have h3 : stripSlash (!false && (none : Option Str).isNone) ('/' :: R) = some (R, false) := by simp [stripSlash]
-      exact (parseHead_of_stages h1 h2 h3 (afterSlash false (Or.inr trivial))).trans (by simp)
-    | true =>
-      have hf' : fmt = .historical := by simpa using hf
-      subst hf'
-      cases n with
-      | none =>
-        -- C tail
-        have e : headStr T .historical none none c ++ tail = (x :: xs) ++ tail := by
-          simp [headStr, hC, optStr]
-        rw [e]
-        have dk : ((x :: xs) ++ tail).dropWhile (schemeChar T) = tail := by
-          have hall : ∀ ch ∈ x :: xs, schemeChar T ch = true := fun ch hch => by simp [schemeChar, hcls.2 ch hch]
-          rcases ht with rfl | ⟨t, rfl⟩
-          · simpa using dropWhile_end hall
-          · exact dropWhile_stop hall sc_do t
-        have hss : stripSlash true ((x :: xs) ++ tail) = some ((x :: xs) ++ tail, true) := by
-          simp only [List.cons_append, stripSlash]
-          split
-          · rename_i r heq; simp at heq; exact absurd heq.1 hxne.1
-          · rfl
-        have h1 : stripScheme T ((x :: xs) ++ tail) = (false, (x :: xs) ++ tail) :=
-          stripScheme_none (by intro r; rw [dk]; rcases ht with rfl | ⟨t, rfl⟩ <;> simp)
-        have h2 : stripAuth T ((x :: xs) ++ tail) = (none, (x :: xs) ++ tail) :=
-          stripAuth_none (by intro r he; simp at he; exact hxne.1 he.1)
-        have h3 : stripSlash (!false && (none : Option Str).isNone) ((x :: xs) ++ tail) = some ((x :: xs) ++ tail, true) := by
-          simpa using hss
-        exact (parseHead_of_stages h1 h2 h3 (splitNs_start hT (by simp) hcls.2 ht)).trans (by simp)
-      | some m =>
-        -- N ":" C tail
-        obtain ⟨hNok, hNall⟩ := hns m rfl
-        generalize hN : caseOf T .historical m = N at hNok hNall
-        obtain ⟨y, ys, rfl⟩ : ∃ y ys, N = y :: ys := by
-          cases N with
-          | nil => exact absurd rfl (nsOk_ne_nil hNok)
-          | cons y ys => exact ⟨y, ys, rfl⟩
-        have hy : y ≠ '/' := nsOk_head hNok
-        have e : headStr T .historical none (some m) c ++ tail = (y :: ys) ++ ':' :: ((x :: xs) ++ tail) := by
-          simp [headStr, hC, hN, optStr]
-        rw [e]
-        have nosch : ∀ r, ((y :: ys) ++ ':' :: ((x :: xs) ++ tail)).dropWhile (schemeChar T) ≠ ':' :: '/' :: r := by
-          intro r he
-          rw [List.dropWhile_append] at he
-          split at he
-          · simp [sc_co] at he; exact hxne.1 he.1
-          · rename_i hne
-            cases hd : (y :: ys).dropWhile (schemeChar T) with
-            | nil => simp [hd] at hne
-            | cons z zs =>
-              rw [hd] at he
-              simp at he
-              have hz : z ∈ y :: ys := List.dropWhile_subset _ (by rw [hd]; simp)
-              have := hNall z hz
-              rw [he.1] at this
-              simp [nsChar, wco] at this
-        have hss : stripSlash true ((y :: ys) ++ ':' :: ((x :: xs) ++ tail)) =
-            some ((y :: ys) ++ ':' :: ((x :: xs) ++ tail), true) := by
-          simp only [List.cons_append, stripSlash]
-          split
-          · rename_i r heq; simp at heq; exact absurd heq.1 hy
-          · rfl
-        generalize hR : (x :: xs) ++ tail = R at nosch hss ⊢
-        have h1 : stripScheme T ((y :: ys) ++ ':' :: R) = (false, (y :: ys) ++ ':' :: R) := stripScheme_none nosch
-        have h2 : stripAuth T ((y :: ys) ++ ':' :: R) = (none, (y :: ys) ++ ':' :: R) :=
-          stripAuth_none (by intro r he; simp at he; exact hy he.1)
-        have h3 : stripSlash (!false && (none : Option Str).isNone) ((y :: ys) ++ ':' :: R) = some ((y :: ys) ++ ':' :: R, true) := by
-          simpa using hss
-        exact (parseHead_of_stages h1 h2 h3 (splitNs_some hT hNok hNall true R)).trans (by simp [hN])
+  rw [parseHead_printed_all hT hs.toOk ht]; simp [parsedHost, hs.fmt_ok]
 
 /-! ### reals: every `repr(float)` shape, after the exponent fix, is read back as a real -/
 
@@ -1419,10 +1486,6 @@ theorem fixExp_form1 {r : Str} (h : isFloatRepr r = true) :
 
 /-! ### round trip, step 3: what comes back, and the documented limits (`PathSafe`) -/
 
-def lookupKV (T : Tab) (k : Str) : Keys → Option KeyVal
-  | .nil => none
-  | .cons k' v r => if T.foldS k' = T.foldS k then some v else lookupKV T k r
-
 theorem lookupFold_printKeys (T : Tab) (fmt : Fmt) (k : Str) : ∀ ks,
     lookupFold T k (printKeys T fmt ks) = (lookupKV T k ks).map (printVal T fmt)
   | .nil => rfl
@@ -1450,7 +1513,7 @@ def normVal (T : Tab) (fmt : Fmt) : KeyVal → KeyVal
 /-- the path `from_wbem_uri(p.to_wbem_uri(fmt))` gives back: names in the case of the format, keybindings in
     printing order, reals as the printed literal, references likewise (recursively); nothing else changes -/
 def normPath (T : Tab) (fmt : Fmt) : Path → Path
-  | .mk h n c ks => .mk (h.map (caseOf T fmt)) (n.map (caseOf T fmt)) (caseOf T fmt c) (sortKeys T fmt (normKeys T fmt ks))
+  | .mk h n c ks => .mk (parsedHost T fmt h) (n.map (caseOf T fmt)) (caseOf T fmt c) (sortKeys T fmt (normKeys T fmt ks))
 def normKeys (T : Tab) (fmt : Fmt) : Keys → Keys
   | .nil => .nil
   | .cons k v r => .cons k (normVal T fmt v) (normKeys T fmt r)
@@ -1487,6 +1550,48 @@ def PathSafe (T : Tab) (fmt : Fmt) : Path → Prop
 def KeysSafe (T : Tab) (fmt : Fmt) : Keys → Prop
   | .nil => True
   | .cons _ v r => ValSafe T fmt v ∧ KeysSafe T fmt r
+end
+
+mutual
+/-- `ValSafe` / `PathSafe` / `KeysSafe` for all four formats (`HeadOk` instead of `HeadSafe`: nothing is required of the host
+    in the `cimobject` format, at any nesting level) -/
+def ValOk (T : Tab) (fmt : Fmt) : KeyVal → Prop
+  | .str s => (∀ c ∈ s, c ≠ '\n') ∧ NotUri T s ∧ dtAccepts s = false
+  | .bool _ => True
+  | .int _ => True
+  | .real r => isFloatRepr r = true
+  | .dt s => dtAccepts s = true ∧ (∀ c ∈ s, c ≠ '"' ∧ c ≠ '\\' ∧ c ≠ '\n') ∧ NotUri T s
+  | .ref p => PathOk T fmt p
+def PathOk (T : Tab) (fmt : Fmt) : Path → Prop
+  | .mk h n c ks => HeadOk T fmt h n c ∧ ks ≠ .nil ∧ (foldNames T ks).Nodup ∧
+      (∀ k ∈ ks.names, caseOf T fmt k ≠ [] ∧ ∀ ch ∈ caseOf T fmt k, T.word ch = true) ∧ KeysOk T fmt ks
+def KeysOk (T : Tab) (fmt : Fmt) : Keys → Prop
+  | .nil => True
+  | .cons _ v r => ValOk T fmt v ∧ KeysOk T fmt r
+end
+
+mutual
+theorem valSafe_ok {T : Tab} {fmt : Fmt} : (v : KeyVal) → ValSafe T fmt v → ValOk T fmt v
+  | .str _, h => by simpa [ValSafe, ValOk] using h
+  | .bool _, _ => by simp [ValOk]
+  | .int _, _ => by simp [ValOk]
+  | .real _, h => by simpa [ValSafe, ValOk] using h
+  | .dt _, h => by simpa [ValSafe, ValOk] using h
+  | .ref p, h => by
+    have h' : PathSafe T fmt p := by simpa [ValSafe] using h
+    simpa [ValOk] using pathSafe_ok p h'
+theorem pathSafe_ok {T : Tab} {fmt : Fmt} : (p : Path) → PathSafe T fmt p → PathOk T fmt p
+  | .mk h n c ks, hs => by
+    have hs' : HeadSafe T fmt h n c ∧ ks ≠ .nil ∧ (foldNames T ks).Nodup ∧
+      (∀ k ∈ ks.names, caseOf T fmt k ≠ [] ∧ ∀ ch ∈ caseOf T fmt k, T.word ch = true) ∧ KeysSafe T fmt ks := by
+      simpa [PathSafe] using hs
+    have := keysSafe_ok ks hs'.2.2.2.2
+    simpa [PathOk] using ⟨hs'.1.toOk, hs'.2.1, hs'.2.2.1, hs'.2.2.2.1, this⟩
+theorem keysSafe_ok {T : Tab} {fmt : Fmt} : (ks : Keys) → KeysSafe T fmt ks → KeysOk T fmt ks
+  | .nil, _ => by simp [KeysOk]
+  | .cons _ v r, hs => by
+    have hs' : ValSafe T fmt v ∧ KeysSafe T fmt r := by simpa [KeysSafe] using hs
+    simpa [KeysOk] using ⟨valSafe_ok v hs'.1, keysSafe_ok r hs'.2⟩
 end
 
 /-! ### round trip, step 4: `_kbstr_to_cimval` on printed values -/
@@ -1908,7 +2013,7 @@ theorem quote_len (b : Str) : (quote b).length = b.length + 2 := by simp [quote]
 
 /-- one level of the round trip, given the facts about the values one level down -/
 theorem path_rt_step {T : Tab} (hT : TabOk T) {fmt : Fmt} {h n : Option Str} {c : Str} {ks : Keys}
-    (hhead : HeadSafe T fmt h n c) (hne : ks ≠ .nil) (hnd : (foldNames T ks).Nodup)
+    (hhead : HeadOk T fmt h n c) (hne : ks ≠ .nil) (hnd : (foldNames T ks).Nodup)
     (hnames : ∀ k ∈ ks.names, caseOf T fmt k ≠ [] ∧ ∀ ch ∈ caseOf T fmt k, T.word ch = true)
     (hvals : ∀ k v, lookupKV T k ks = some v → ValRT T fmt v) :
     PathRT T fmt (.mk h n c ks) := by
@@ -1994,17 +2099,19 @@ theorem path_rt_step {T : Tab} (hT : TabOk T) {fmt : Fmt} {h n : Option Str} {c 
     · -- head: host / namespace / class characters and separators
       intro e; subst e
       have wnl : T.word '\n' = false := hT.not_word '\n' (by simp)
-      obtain ⟨hfmt, hhost, hns, hcls, _⟩ := hhead
+      obtain ⟨hhost, hns, hcls, _⟩ := hhead
       simp only [headStr, List.mem_append] at hch
       rcases hch with (((hch | hch) | hch) | hch) | hch
       · cases h with
         | none => simp at hch
         | some hh =>
-          simp only [hfmt, ne_eq, not_false_eq_true, if_true, List.mem_cons] at hch
-          rcases hch with hch | hch | hch
-          · revert hch; decide
-          · revert hch; decide
-          · have := (hhost hh rfl).2 _ hch; simp [authChar, wnl] at this
+          by_cases hfmt : fmt = .cimobject
+          · simp [hfmt] at hch
+          · simp only [hfmt, ne_eq, not_false_eq_true, if_true, List.mem_cons] at hch
+            rcases hch with hch | hch | hch
+            · revert hch; decide
+            · revert hch; decide
+            · have := (hhost hfmt hh rfl).2 _ hch; simp [authChar, wnl] at this
       · split at hch <;> simp at hch
       · cases n with
         | none => simp [optStr] at hch
@@ -2017,11 +2124,11 @@ theorem path_rt_step {T : Tab} (hT : TabOk T) {fmt : Fmt} {h n : Option Str} {c 
     cases fuel with
     | zero => omega
     | succ m =>
-      have hph := parseHead_printed hT hhead (tail := '.' :: kb) (Or.inr ⟨kb, rfl⟩)
+      have hph := parseHead_printed_all hT hhead (tail := '.' :: kb) (Or.inr ⟨kb, rfl⟩)
       have hcw := hhead.cls
       have hdot : T.word '.' = false := hT.not_word '.' (by simp)
       have hsp : stepPrefix T (headStr T fmt h n c ++ '.' :: kb) =
-          some ({ host := h.map (caseOf T fmt), ns := n.map (caseOf T fmt), rest := caseOf T fmt c ++ '.' :: kb },
+          some ({ host := parsedHost T fmt h, ns := n.map (caseOf T fmt), rest := caseOf T fmt c ++ '.' :: kb },
                 caseOf T fmt c, items) := by
         unfold stepPrefix
         simp only [hph, takeWhile_stop hcw.2 hdot, dropWhile_stop hcw.2 hdot]
@@ -2072,9 +2179,9 @@ theorem path_rt_step {T : Tab} (hT : TabOk T) {fmt : Fmt} {h n : Option Str} {c 
       rfl
 
 mutual
-theorem val_rt {T : Tab} (hT : TabOk T) (fmt : Fmt) : (v : KeyVal) → ValSafe T fmt v → ValRT T fmt v
+theorem val_rt_ok {T : Tab} (hT : TabOk T) (fmt : Fmt) : (v : KeyVal) → ValOk T fmt v → ValRT T fmt v
   | .str s, h => by
-    have h' : (∀ c ∈ s, c ≠ '\n') ∧ NotUri T s ∧ dtAccepts s = false := by simpa [ValSafe] using h
+    have h' : (∀ c ∈ s, c ≠ '\n') ∧ NotUri T s ∧ dtAccepts s = false := by simpa [ValOk] using h
     refine ⟨by simpa [printVal] using tok_quoted_escape h'.1, fun m hm => ?_⟩
     simp only [printVal, quote_len] at hm ⊢
     have hl := escape_len s
@@ -2084,10 +2191,10 @@ theorem val_rt {T : Tab} (hT : TabOk T) (fmt : Fmt) : (v : KeyVal) → ValSafe T
   | .bool b, _ => ⟨by simpa [printVal] using tok_bool b, fun m _ => by simpa [printVal, normVal] using kbVal_bool hT _ b⟩
   | .int i, _ => ⟨by simpa [printVal] using tok_int i, fun m _ => by simpa [printVal, normVal] using kbVal_int hT _ i⟩
   | .real r, h => by
-    have h' := real_printed_ok hT (r := r) (by simpa [ValSafe] using h)
+    have h' := real_printed_ok hT (r := r) (by simpa [ValOk] using h)
     exact ⟨by simpa [printVal] using h'.1, fun m _ => by simpa [printVal, normVal] using h'.2 _⟩
   | .dt s, h => by
-    have h' : dtAccepts s = true ∧ (∀ c ∈ s, c ≠ '"' ∧ c ≠ '\\' ∧ c ≠ '\n') ∧ NotUri T s := by simpa [ValSafe] using h
+    have h' : dtAccepts s = true ∧ (∀ c ∈ s, c ≠ '"' ∧ c ≠ '\\' ∧ c ≠ '\n') ∧ NotUri T s := by simpa [ValOk] using h
     refine ⟨by simpa [printVal] using tok_quoted_plain h'.2.1, fun m hm => ?_⟩
     simp only [printVal, quote_len] at hm ⊢
     have hu : unescape s = s := unescape_plain s (fun c hc => (h'.2.1 c hc).2.1)
@@ -2095,30 +2202,33 @@ theorem val_rt {T : Tab} (hT : TabOk T) (fmt : Fmt) : (v : KeyVal) → ValSafe T
       rw [hu]; exact notUri_fuel h'.2.2 (by omega)
     rw [kbVal_quoted_ve hr, hu, h'.1]; simp [normVal]
   | .ref q, h => by
-    have h' : PathSafe T fmt q := by simpa [ValSafe] using h
-    have r := path_rt hT fmt q h'
+    have h' : PathOk T fmt q := by simpa [ValOk] using h
+    have r := path_rt_ok hT fmt q h'
     refine ⟨by simpa [printVal, escapeRef_eq] using tok_quoted_escape r.1, fun m hm => ?_⟩
     simp only [printVal, escapeRef_eq, quote_len] at hm ⊢
     have hl := escape_len (toUri T fmt q)
     have hr : fromUriF T m (unescape (escape (toUri T fmt q))) = .ok (normPath T fmt q) := by
       rw [unescape_escape]; exact r.2 m (by omega)
     rw [kbVal_quoted_ok hr]; simp [normVal]
-theorem path_rt {T : Tab} (hT : TabOk T) (fmt : Fmt) : (p : Path) → PathSafe T fmt p → PathRT T fmt p
+theorem path_rt_ok {T : Tab} (hT : TabOk T) (fmt : Fmt) : (p : Path) → PathOk T fmt p → PathRT T fmt p
   | .mk h n c ks, hs => by
-    have hs' : HeadSafe T fmt h n c ∧ ks ≠ .nil ∧ (foldNames T ks).Nodup ∧
-      (∀ k ∈ ks.names, caseOf T fmt k ≠ [] ∧ ∀ ch ∈ caseOf T fmt k, T.word ch = true) ∧ KeysSafe T fmt ks := by
-      simpa [PathSafe] using hs
-    exact path_rt_step hT hs'.1 hs'.2.1 hs'.2.2.1 hs'.2.2.2.1 (keys_rt hT fmt ks hs'.2.2.2.2)
-theorem keys_rt {T : Tab} (hT : TabOk T) (fmt : Fmt) : (ks : Keys) → KeysSafe T fmt ks →
+    have hs' : HeadOk T fmt h n c ∧ ks ≠ .nil ∧ (foldNames T ks).Nodup ∧
+      (∀ k ∈ ks.names, caseOf T fmt k ≠ [] ∧ ∀ ch ∈ caseOf T fmt k, T.word ch = true) ∧ KeysOk T fmt ks := by
+      simpa [PathOk] using hs
+    exact path_rt_step hT hs'.1 hs'.2.1 hs'.2.2.1 hs'.2.2.2.1 (keys_rt_ok hT fmt ks hs'.2.2.2.2)
+theorem keys_rt_ok {T : Tab} (hT : TabOk T) (fmt : Fmt) : (ks : Keys) → KeysOk T fmt ks →
     ∀ k v, lookupKV T k ks = some v → ValRT T fmt v
   | .nil, _, k, v, h => by simp [lookupKV] at h
   | .cons k' v' r, hs, k, v, h => by
-    have hs' : ValSafe T fmt v' ∧ KeysSafe T fmt r := by simpa [KeysSafe] using hs
+    have hs' : ValOk T fmt v' ∧ KeysOk T fmt r := by simpa [KeysOk] using hs
     simp only [lookupKV] at h
     split at h
-    · cases h; exact val_rt hT fmt v' hs'.1
-    · exact keys_rt hT fmt r hs'.2 k v h
+    · cases h; exact val_rt_ok hT fmt v' hs'.1
+    · exact keys_rt_ok hT fmt r hs'.2 k v h
 end
+
+theorem path_rt {T : Tab} (hT : TabOk T) (fmt : Fmt) (p : Path) (hs : PathSafe T fmt p) : PathRT T fmt p :=
+  path_rt_ok hT fmt p (pathSafe_ok p hs)
 
 /-! ### the re-parsed path compares equal (`==`) to the original -/
 
@@ -2211,6 +2321,8 @@ theorem path_eq {T : Tab} (hT : TabOk T) (R : RealSem) (fmt : Fmt) :
       unfold caseOf; split
       · exact hT.lower_idem c
       · rfl
+    have hph : parsedHost T fmt h = h.map (caseOf T fmt) := by simp [parsedHost, hs'.1.fmt_ok]
+    rw [hph]
     refine .mk (optLower_case_self hT fmt h) (optLower_case_self hT fmt n) hc ?_ ?_
     · rw [names_ofList_map]
       simp only [sortedNames, normKeys_names]
@@ -2233,6 +2345,35 @@ theorem keys_eq {T : Tab} (hT : TabOk T) (R : RealSem) (fmt : Fmt) :
     split at h
     · cases h; exact val_eq hT R fmt v' hs'.1 hn'.1
     · exact keys_eq hT R fmt r hs'.2 hn'.2 k v h
+end
+
+/-! ### the executable `==` (`pathEqB`, compared with the real `==` by K) agrees with the relation `PathEq` -/
+
+theorem eqName_of_optLower {T : Tab} {a b : Option Str} (h : OptLowerEq T a b) : eqName T a b = true := by
+  cases a <;> cases b <;> simp_all [OptLowerEq, eqName]
+
+mutual
+theorem valEqB_of_valEq {T : Tab} {R : RealSem} {E : EqTab}
+    (hr : ∀ a b, R.same a b → E.realSame a b = true) (hd : ∀ s, E.dtSame s s = true) {v w : KeyVal} :
+    ValEq T R v w → valEqB T E v w = true
+  | .str => by simp [valEqB]
+  | .bool => by simp [valEqB]
+  | .int => by simp [valEqB]
+  | .dt => by simp [valEqB, hd]
+  | .real h => by simp [valEqB, hr _ _ h]
+  | .ref h => by simp [valEqB, pathEqB_of_pathEq hr hd h]
+theorem pathEqB_of_pathEq {T : Tab} {R : RealSem} {E : EqTab}
+    (hr : ∀ a b, R.same a b → E.realSame a b = true) (hd : ∀ s, E.dtSame s s = true) {p q : Path} :
+    PathEq T R p q → pathEqB T E p q = true
+  | .mk hh hn hc hl hs => by
+    simp [pathEqB, Path.host, Path.ns, Path.cls, Path.keys, eqName_of_optLower hh, eqName_of_optLower hn, hc, hl,
+      keysSubB_of_keysSub hr hd hs]
+theorem keysSubB_of_keysSub {T : Tab} {R : RealSem} {E : EqTab}
+    (hr : ∀ a b, R.same a b → E.realSame a b = true) (hd : ∀ s, E.dtSame s s = true) {a o : Keys} :
+    KeysSub T R a o → keysSubB T E a o = true
+  | .nil => by simp [keysSubB]
+  | .cons hl hv hrest => by
+    simp [keysSubB, hl, valEqB_of_valEq hr hd hv, keysSubB_of_keysSub hr hd hrest]
 end
 
 /-! ### executable comparison of paths, for the witnesses -/
